@@ -61,7 +61,8 @@ func VerifH_C17_L2_immutable() {
 	}
 	nw := old.DeepCopy()
 	mustReject := false
-	switch vz.Choice("mutation", 14) {
+	kind := vz.Choice("mutation", 14)
+	switch kind {
 	case 0: // nothing listed changes (only a mutable field)
 		nw.Labels["other"] = "y"
 		nw.Spec.Template.TaskPendingTimeoutSeconds = pointer.Int64(5)
@@ -139,6 +140,11 @@ func VerifH_C17_L2_immutable() {
 	errs := NewValidator(nil).ValidateJobUpdate(old, nw)
 	if mustReject {
 		vz.Assert(len(errs) > 0, "C17/L2/immutable-field-change-rejected")
+		if kind == 11 || kind == 12 {
+			// (C12: once the kill time has passed the Job stays killed - the timestamp can be neither moved nor removed)
+			vz.Assert(len(errs) > 0, "C12/passed-killTimestamp-cannot-be-changed-or-removed")
+			vz.Cover("kill-frozen")
+		}
 		vz.Cover("rejected")
 	} else {
 		vz.Assert(len(errs) == 0, "C17/L2/allowed-update-accepted")
